@@ -103,7 +103,10 @@ def scenarios(tier, seed):
     out = [{"kind": "pestle", "seed": seed * 1000 + 703, "ndims": 3, "nf": 3, "nfiles": 2, "layout": "shuffled",
             "n0": [32, 32, 16], "levels": OFFSET16, "ncombos": 5, "box_sizes": [16, 16], "dx0": [0.25, 0.5, 0.125]},
            {"kind": "pestle", "seed": seed * 1000 + 700, "ndims": 3, "nf": 3, "nlevels": 3, "nfiles": 2, "layout": "shuffled",
-            "box": 8, "n0": [16, 16, 16], "ncombos": 5, "dx0": [0.1, 0.2, 0.4]},
+            "box": 8, "n0": [16, 16, 16], "ncombos": 5, "dx0": [0.1, 0.2, 0.4],
+            # ... then another plotfile (other refinement pattern) at the same path, integrated in the same process
+            "then": {"kind": "pestle", "seed": seed * 1000 + 745, "ndims": 3, "nf": 3, "nlevels": 3, "nfiles": 3, "layout": "roundrobin",
+                     "box": 8, "n0": [16, 16, 16], "ncombos": 5, "dx0": [0.1, 0.2, 0.4]}},
            {"kind": "pestle", "seed": seed * 1000 + 701, "ndims": 3, "nf": 3, "nfiles": 2, "layout": "shuffled",
             "n0": [32, 16, 16], "levels": MIX, "ncombos": 4, "box_sizes": [16, 24]},
            {"kind": "pestle", "seed": seed * 1000 + 702, "ndims": 3, "nf": 4, "nfiles": 3, "layout": "roundrobin",
